@@ -564,7 +564,15 @@ def init_info(fn, cinfo_by_name, cls, input_names=('input',)):
     def note(slot, value, top):
         if slot not in assigned:
             assigned.append(slot)
-        if value is not None and isinstance(value, ast.Dict) and all(const_key(k) is not None for k in value.keys):
+        if value is not None and isinstance(value, ast.Call) and getattr(value.func, 'id', None) == 'dict' and len(value.args) == 1 \
+                and self_attr(value.args[0]) == slot and value.keywords and all(kw.arg for kw in value.keywords):
+            # `self.x = dict(self.x, k=…)`: a copy of the slot's dict with the entries k replaced — only those
+            # entries are (re)computed, the rest keeps its value
+            for kw in value.keywords:
+                if mentions(kw.value) and slot + '.' + kw.arg not in derived_set:
+                    derived.append(slot + '.' + kw.arg)
+                    derived_set.add(slot + '.' + kw.arg)
+        elif value is not None and isinstance(value, ast.Dict) and all(const_key(k) is not None for k in value.keys):
             # a dict literal: only the entries computed from the input are derived
             for k, v in zip(value.keys, value.values):
                 if mentions(v) and slot + '.' + const_key(k) not in derived_set:
